@@ -193,6 +193,19 @@ func reinitCases(c *Ctx, w *World, prop string) []HistCase {
 			fail("reinit-incomplete", "a reinit file that contains a message of another round does not bring the round to signing-ready", o)
 		}
 	}})
+	// (f') the dump also holds a signing batch of ANOTHER round (an older key in use while this round
+	// was generating its key): it must neither be applied nor end the replay of this round
+	{
+		foreignStart := w.Msg("round-of-an-older-key", "event_signing_start", requests.SigningBatchProposalStartRequest{BatchID: "older-batch", ParticipantId: 0, CreatedAt: T(15), SigningTasks: w.Tasks("older-batch")}, w.Users[0], "", w.Users[0], NOWMARK, "foreign-start").In.Msg
+		withStart := *body
+		half := len(body.Messages) / 2
+		withStart.Messages = append(append(append([]storage.Message{}, body.Messages[:half]...), foreignStart), body.Messages[half:]...)
+		cases = append(cases, HistCase{Kind: "reinit-foreign-signing-start", User: me, Items: []Item{w.ReinitItem(roundOld, &withStart, nil, "reinit-foreign-signing-start")}, Check: func(o RunObs) {
+			if !strings.Contains(roundProj(o.After, roundOld), "stage_signing_idle") {
+				fail("reinit-incomplete", "a reinit file that contains a signing batch of another round does not bring the round to signing-ready", o)
+			}
+		}})
+	}
 	// (a) plain reinit on a fresh node, and (b) the same reinit twice
 	cases = append(cases, HistCase{Kind: "reinit-fresh", User: me, Items: []Item{w.ReinitItem(roundOld, body, nil, "reinit-ok")}})
 	cases = append(cases, HistCase{Kind: "reinit-twice", User: me, Items: []Item{w.ReinitItem(roundOld, body, nil, "reinit-ok"), w.ReinitItem(roundOld, body, nil, "reinit-again")}, Check: func(o RunObs) {
